@@ -17,6 +17,7 @@ CFG = {
         "Leptos.Ambient.C20_owner_already_current",
         "Leptos.Ambient.C20_owner_current_witness",
         "Leptos.Ambient.C20_assembly_witness",
+        "Leptos.Ambient.C20_none_stays_none",
         "Leptos.Ambient.C20_cleanup_arena_witness",
         "Leptos.Ambient.C20_memo_rerun_witness",
         "Leptos.Ambient.runSteps_cleanup",
@@ -48,7 +49,7 @@ CFG = {
             "poll i (i-th ready task of the controlled executor, any request) / drop r / abort r b (client abort: body dropped unpolled while request b's arena is current), then end; plus, exhaustively, ALL 80 interleavings of "
             "{start r, fire r 1, ps r} for 8 (thorough: 10) fixed program pairs all 102 interleavings x 2 of [start 0, ps 0, abort 0 1] with [start 1, ps 1, fire 1 1, ps 1] for 3 pages, and all 70 alternations of [start r, ps r, fire r 1, ps r] (r = 0, 1: two response bodies "
             "polled alternately) for 4 (thorough: 5) pages with sandboxed-only bodies and re-running resources; every case is run in two build configurations (sandboxed-arenas with "
-            "the real leptos_integration_utils::build_response; global arena with build_response reproduced). Oracle: each response's HTML and leaf log "
+            "the real leptos_integration_utils::build_response; global arena with build_response reproduced). Oracles: no step other than start may install a thread-local owner (None stays None); each response's HTML and leaf log "
             "== the same request replayed ALONE with the same relative order of its own actions. Shared observable: per response, whose hydration data it carries, whose arena items sandboxed/handler-side bodies read, and the context tags "
             "each leaf saw. distinct = distinct op text; trivial = no async boundary / cleanup / early drop (tags only in plain,in-order,ooo,for,provider). "
             "Since the repairs fix-c20-1/3/4 the shapes of the former findings F-C20-1..4 (lazy leaves, Providers, Suspenses, on_cleanup and Actions in the view of a "
@@ -64,6 +65,12 @@ CFG = {
         "spawn sites' wrapping flags (spawn_local_scoped = ScopedFuture+Sandboxed; reactive_graph::spawn = Sandboxed only: Action::dispatch, OnceResource (ScopedFuture at construction), ArcAsyncDerived tasks)", "use_context / provide_context", "ArenaItem allocation + Owner::cleanup of a root",
         "WHICH call sites are wrapped: modelled, not verified — checked by the correspondence (unwrapped sites found and repaired: F-C20-1/2/3, F-C20-4)",
         "slotmap key uniqueness", "ScopedFuture::new without a current owner (unwrap_or_default) not modelled",
+        "BY DESIGN, not interference: Owner::with / Owner::set / Sandboxed select the owner's ARENA and never restore the previous one (arena.rs has no guard except Arena::enter for cleanups). "
+        "The model has exactly this (Step.withOwner / enterAmb leave the arena; example in Theorems/C20.lean) and the theorems hold WITH it: every piece of code that touches arena handles on behalf of a "
+        "request is inside Sandboxed or Owner::with/ScopedFuture, each of which re-selects its own arena first (C20_wrapped_isolated, C20_sandboxed_arena), so the stale arena is never read by "
+        "disciplined code; it is observable only by code with no wrapper at all (a bare future or plain function that uses a Copy handle without entering an owner), which is outside the discipline - "
+        "that is what Sandboxed exists for. The OWNER and OBSERVER, in contrast, are restored by every scoped step (C20_with_restores, C20_none_stays_none), and the harness checks on the real "
+        "thread-local that no step except Owner::new_root installs an owner (oracle ambient-owner-installed) and what unrelated work would find there (op `amb`)",
         "sandboxed-only bodies do not ALLOCATE arena items without an owner in the generated programs: ArenaItem::new registers the item with Owner::current(), which for such a body is the ambient "
         "owner (by design of reactive_graph::spawn) - observed: the item then lives and dies with another request's owner",
     ],
